@@ -282,6 +282,10 @@ def match_instances(
 
     positive_pairs = []
     for idx_pr in idxs_pr:
+        # Nothing to match against (frame without ground truth instances).
+        if not available_instances_gt_idxs:
+            break
+
         # Pull out predicted instance.
         instance_pr = frame_pr_match_instances[idx_pr]
 
